@@ -104,7 +104,7 @@ func (r *cartRun) do(op string) string {
 	w := strings.Fields(op)
 	var out string
 	switch {
-	case w[0] == "reset" && (len(w) == 4 || len(w) == 5 || len(w) == 6):
+	case w[0] == "reset" && len(w) >= 4 && len(w) <= 7:
 		typ, rsz, ramsz := uint8(unhex(w[1])), uint8(unhex(w[2])), uint8(unhex(w[3]))
 		length := defaultLen(rsz)
 		if len(w) >= 5 {
@@ -114,11 +114,17 @@ func (r *cartRun) do(op string) string {
 		r.m = nil
 		r.resets++
 		img := cartImage(typ, rsz, ramsz, length)
-		if len(w) == 6 {
+		if len(w) >= 6 {
 			// an image whose pages from <erase> on are erased flash (all FF): a private copy
 			img = append([]byte(nil), img...)
 			for i := unhex(w[5]) * 0x4000; i >= 0 && i < len(img); i++ {
 				img[i] = 0xff
+			}
+		}
+		if len(w) == 7 && w[6] == "1" {
+			// every page repeats the logo / header area 0104-0133 of page 0 (as the games of a multi-game cartridge do)
+			for pg := 1; pg*0x4000+0x134 <= len(img); pg++ {
+				copy(img[pg*0x4000+0x104:pg*0x4000+0x134], img[0x104:0x134])
 			}
 		}
 		out = guard(func() string {
@@ -485,6 +491,28 @@ func cartGen(c *ctx) {
 						r.w(0x3000, b>>8&1)
 					}
 					r.win("erased")
+				}
+			}
+		}
+	}
+	// Part C3b: images in which every page repeats the header area of page 0: what a controller does must not depend
+	// on what the ROM contains
+	for _, t := range []int{0x01, 0x03, 0x11, 0x19} {
+		for _, rs := range []int{4, 5, 6} {
+			pages := 2 << uint(rs)
+			if r.do(fmt.Sprintf("reset %02x %02x 03 %x %x 1", t, rs, pages*0x4000, pages)) != "ok" {
+				continue
+			}
+			r.w(0x0000, 0x0a)
+			for mode := 0; mode < 2; mode++ {
+				r.w(0x6000, mode)
+				for _, b2 := range []int{0, 1, 2, 3} {
+					r.w(0x4000, b2)
+					r.w(0x3000, b2&1)
+					for _, b1 := range []int{0x00, 0x01, 0x02, 0x0f, 0x10, 0x11, 0x12, 0x1f, 0x20} {
+						r.w(0x2000, b1)
+						r.win("dup")
+					}
 				}
 			}
 		}
